@@ -66,6 +66,18 @@ Theorem hull_point_case : forall (ps : list pt) (a : pt),
 Proof. exact hull_point_iff. Qed.
 Print Assumptions hull_point_case.
 
+(* which case occurs is decided by the geometry of the point set: a two-point LineString exactly
+   when there are two different points and all points are collinear, a Polygon exactly when the
+   points are not all collinear *)
+Theorem hull_line_case : forall ps : list pt,
+  (exists a b, hull_pts ps = HLine a b) <-> ((exists x y, In x ps /\ In y ps /\ x <> y) /\ all_collinear ps).
+Proof. exact hull_line_iff. Qed.
+Print Assumptions hull_line_case.
+Theorem hull_polygon_case : forall ps : list pt,
+  (exists ring, hull_pts ps = HPoly ring) <-> ~ all_collinear ps.
+Proof. exact hull_polygon_iff. Qed.
+Print Assumptions hull_polygon_case.
+
 (* the result does not depend on the order of the points ... *)
 Theorem hull_perm : forall ps ps' : list pt, Permutation ps ps' -> hull_pts ps = hull_pts ps'.
 Proof. exact hull_perm_lemma. Qed.
@@ -119,6 +131,15 @@ Theorem cand_rect_covers : forall (ps ring : list pt) (c : cand) (v : pt),
   rect_contains (rect_corners (cand_rect c)) (q_of_pt v) = true.
 Proof. exact cand_rect_covers_lemma. Qed.
 Print Assumptions cand_rect_covers.
+(* ... and is tight: each of its three extents is attained by a ring vertex (every side of the
+   rectangle touches the ring), so it is the smallest enclosing rectangle with these directions *)
+Theorem cand_rect_tight : forall (ring : list pt) (a b : pt), In (a, b) (ring_edges ring) ->
+  let c := candidate ring (a, b) in
+  exists v1 v2 v3, In v1 ring /\ In v2 ring /\ In v3 ring /\
+    dot (sub v1 a) (c_d c) = c_tmin c /\ dot (sub v2 a) (c_d c) = c_tmax c /\
+    dot (sub v3 a) (rot90 (c_d c)) = c_hmax c.
+Proof. exact cand_rect_tight_lemma. Qed.
+Print Assumptions cand_rect_tight.
 (* the chosen rectangle is a candidate and minimises the metric (area / squared width) *)
 Theorem mbr_is_min_candidate : forall (k : metric_kind) (ring : list pt) (c : cand),
   find_mbr k ring = Some c ->
